@@ -60,10 +60,12 @@ let base_of = function
       style; text; vars; coll = sbool coll; nreq = int_of_string nreq }
   | x -> raise (Sexp_error ("rq: " ^ print_sexp x))
 
+(* the last two lists (requests with fragments expanded again) only serve to tell the known
+   fragment-naming defect of the minifier from anything else *)
 let run_of = function
-  | L [A "rs"; hit; resp; reqs; freqs; pairs; fresp] ->
-    { hr_hit = sbool hit; hr_resp = json_of resp; hr_reqs = digest_list reqs; hr_fresh_reqs = digest_list freqs;
-      hr_pairs = digest_list pairs; hr_fresh_resp = json_of fresp }
+  | L [A "rs"; hit; resp; reqs; freqs; pairs; fresp; xreqs; xfreqs] ->
+    ({ hr_hit = sbool hit; hr_resp = json_of resp; hr_reqs = digest_list reqs; hr_fresh_reqs = digest_list freqs;
+       hr_pairs = digest_list pairs; hr_fresh_resp = json_of fresp }, print_sexp xreqs = print_sexp xfreqs)
   | x -> raise (Sexp_error ("rs: " ^ print_sexp x))
 
 let is_exec_error (j : json) = match j with JObj [(k, _)] -> string_of_bytes k = "execute_error" | _ -> false
@@ -93,7 +95,9 @@ let handle_hist cfg useed fork join base runs : (string * string) list =
         | _ -> ()) base
   end;
   (* the monolithic reference *)
-  if not (mono_agrees_b hb) then begin
+  (* on configurations of the shared generator "federated = monolithic" is property C01's business
+     (it has findings of its own there); here it is checked on the fixed federations only *)
+  if not (starts_with "gen-" cfg) && not (mono_agrees_b hb) then begin
     let reported = ref 0 in
     List.iter (fun (x : brq) ->
       if !reported < 3 && not (mono_agrees_b [x.b]) then begin
@@ -107,7 +111,8 @@ let handle_hist cfg useed fork join base runs : (string * string) list =
   let sigs = ref [] in
   List.iter (function
     | L (A "run" :: S opts :: rs) ->
-      let run = List.map run_of rs in
+      let runx = List.map run_of rs in
+      let run = List.map fst runx in
       if List.exists (fun r -> r.hr_hit) run then any_hit := true;
       sigs := List.map (fun r -> r.hr_reqs) run :: !sigs;
       let nth_info i = (try show (List.nth base i) with _ -> "?") in
@@ -121,8 +126,11 @@ let handle_hist cfg useed fork join base runs : (string * string) list =
       end;
       if not (cache_hit_same_plan_b run) then begin
         let i = first_bad (fun _ r -> not (cache_hit_same_plan_b [r])) in
-        add "specfail" (Printf.sprintf "cache_hit_same_plan %s opts=%s request=%d hit=%s || %s" ctx opts i
-                          (if i >= 0 && (List.nth run i).hr_hit then "t" else "f") (nth_info i))
+        let resp_same = i >= 0 && json_eqb (List.nth run i).hr_resp (List.nth run i).hr_fresh_resp in
+        add "specfail" (Printf.sprintf "cache_hit_same_plan %s opts=%s request=%d hit=%s minify=%s expanded_equal=%s || %s" ctx opts i
+                          (if i >= 0 && (List.nth run i).hr_hit then "t" else "f")
+                          (if contains opts "z+" then "t" else "f")
+                          (if i >= 0 && snd (List.nth runx i) && resp_same then "t" else "f") (nth_info i))
       end;
       if not (requests_semantically_covered_b hb run) then begin
         let i = first_bad (fun i r -> not (requests_semantically_covered_b [List.nth hb i] [r])) in
